@@ -582,6 +582,15 @@ func (e *Exec) specCall(c *ast.CallExpr, env *SpecEnv) (Val, types.Type) {
 				return iv(mkIte(sx("<=", x, y), x, y)), ta
 			}
 			return iv(mkIte(sx(">=", x, y), x, y)), ta
+		case "strsrc":
+			// strsrc(b): the string a byte slice was converted from ([]byte(s))
+			v, _ := e.evalSpec1(c.Args[0], env)
+			sl, ok := v.(SliceV)
+			if !ok {
+				return e.specErr("strsrc of a non-slice")
+			}
+			e.declareFun("bytes.src", []string{SInt}, SInt)
+			return iv(sx("bytes.src", sl.Base)), types.Typ[types.String]
 		case "nth":
 			// nth(tuple, i): projection of a multi-valued pure call
 			v, t := e.evalSpec1(c.Args[0], env)
